@@ -126,6 +126,9 @@ func plugLangStatements(pb *parser.Builder, ty plugTypes) {
 
 // plugLangPB: a builder of the plugin language in mode m.
 func plugLangPB(m Mode) *parser.Builder {
+	if pbPlugLang {
+		return newPB(m)
+	}
 	pb := newPB(m)
 	plugLangStatements(pb, plugLangLexer(pb.LexerBuilder))
 	return pb
